@@ -84,6 +84,7 @@ EXPECTED_PROBES = [
     "probe.btree_split_during_get", "probe.btree_depth_ge_3", "probe.tx_conflict_abort", "probe.tx_commit_between_reads",
     "probe.tx_overlap", "probe.tx_read_own_write", "probe.tx_mixed_levels_committed",
     "probe.non_serializable_commit_wrote_key_read_by_open_serializable_tx", "probe.tx_commit_inside_another_commit_latency",
+    "probe.concurrent_flushes_with_different_write_times",
     "probe.sync_api_op_in_history", "probe.preloaded_through_put_sync", "probe.synchronous_flush_in_history",
     "probe.tx_commit_in_storage_history", "probe.l0_holds_sync_and_generator_flush_tables", "probe.mixed_origin_l0_tables_compacted",
 ]
@@ -161,7 +162,33 @@ def _clients(rng, n_keys, klass, scans=True, sync=False, kv=False):
 TRIGGER_NS = [500_000, 1_000_000, 2_000_000, 3_000_000, 5_000_000, 8_000_000, 12_000_000, 20_000_000, 30_000_000, 45_000_000]
 
 
+def _gen_lsm_wide(rng):
+    """Many keys, memtable 16, bursts of single-put writers: concurrent puts over-fill a memtable to >= 32 keys (2 pages, twice the
+    write time), a later burst fills a 16-key memtable whose flush starts soon after and finishes first."""
+    n = rng.randint(36, 48)
+    keys = sorted(f"k{i:02d}" for i in rng.sample(range(100), n))
+    eng = S.gen_lsm_spec(rng, memtable=16, wal="no")
+    eng["w_us"] = rng.choice([2000, 2000, 5000])
+    eng["p"] = max(eng["p"], 2)
+    if rng.random() < 0.3:
+        eng["wal"] = S.gen_wal_spec(rng)
+    clients = []
+    t = 0
+    for g in range(rng.randint(2, 4)):
+        size = rng.choice([16, 17, 32, 33, 34]) if g == 0 else rng.choice([8, 16, 16, 17, 24])
+        ks = rng.sample(range(n), min(size, n))
+        for ki in ks:
+            clients.append({"start_ns": t, "ops": [{"op": "put" if rng.random() < 0.85 else "delete", "k": ki, "gap_ns": 0}]})
+        t += rng.choice([50_000, 100_000, 100_000, 200_000, 1_000_000])
+    for _ in range(rng.randint(1, 3)):
+        clients.append({"start_ns": rng.choice([0, 1_000_000, 3_000_000, 8_000_000]), "ops": _ops(rng, n, rng.randint(4, 12), R_MIX)})
+    return {"kind": "lsm", "klass": "lsm/wide", "seed": rng.getrandbits(32), "keys": keys, "engine": eng, "clients": clients,
+            "probe": rng.random() < 0.5, "triggers": [], "preload": []}
+
+
 def _gen_lsm(rng):
+    if rng.random() < 0.07:
+        return _gen_lsm_wide(rng)
     # the avoidance classes of the pre-fix check (single writer, memtable 1) are folded back: every concurrent class may
     # now have several writers, any memtable size and CompactionTriggers
     klass = rng.choices(["seq", "rw", "mixed"], weights=[15, 35, 50])[0]
@@ -282,6 +309,7 @@ class StoreRun:
         self.mon = None
         self.flag_states = set()
         self.overlap_seen = False
+        self.fow = S.FlushOrderWatch(self.store) if self.is_lsm else None
 
     # ---- bookkeeping ----------------------------------------------------
     def bump(self, name):
@@ -337,7 +365,7 @@ class StoreRun:
 
     def diagnose(self, key, cap, allowed, got, opkind):
         if self.is_lsm:
-            return S.diagnose_lsm(cap, allowed, got, self.store, self.overlap_seen)
+            return S.diagnose_lsm(cap, allowed, got, self.store, self.overlap_seen, self.fow.inverted)
         if self.is_btree:
             if opkind in ("get", "scan") and cap is not None and cap["splits"] != self.store._total_splits:
                 return "traversal-started-before-concurrent-split"
@@ -372,6 +400,7 @@ class StoreRun:
         if self.watch is not None:
             ph = self.tracker.phases()
             self.watch.observe(ph["compact"])
+            self.fow.observe()
             if ph["compact"] >= 2:
                 self.bump("probe.overlapping_compactions")
                 self.overlap_seen = True
@@ -651,6 +680,10 @@ def run_store(sc):
             R.bump("probe.tombstone_dropped_at_deepest_level")
         if R.watch.compaction_requests_while_busy:
             R.bump("probe.compaction_requested_while_one_in_progress")
+        if R.fow.different_write_times:
+            R.bump("probe.concurrent_flushes_with_different_write_times")
+        if R.fow.younger_waited:
+            R.bump("probe.younger_sstable_waited_for_older_flush")
         if R.kicker.fired:
             R.bump("probe.trigger_compaction_started")
             R.c["fault.compaction_trigger_started_compaction"] = R.kicker.fired
